@@ -163,7 +163,9 @@ impl Decoder for StreamingDecoder {
         let mut headers = Headers::new();
 
         for item in &mut parser {
-            let item = item.expect("got error when input was already checked");
+            // The head was complete when it was scanned with the following bytes still behind it,
+            // an unusual head terminator (e.g. `\r\n\n`) can look incomplete now that they are cut off
+            let item = item.map_err(|_| Error::Malformed)?;
 
             let line = from_utf8(item)?;
 
@@ -186,9 +188,12 @@ impl Decoder for StreamingDecoder {
 
         let head_end = parser.head_end();
 
+        if src_bytes.len() - head_end != content_len {
+            return Err(Error::Malformed);
+        }
+
         // slice remaining bytes
-        let body = src_bytes.slice(head_end..head_end + content_len);
-        assert_eq!(content_len, body.len());
+        let body = src_bytes.slice(head_end..);
 
         Ok(Some(DecodedMessage {
             line: message_line.ok_or(Error::Malformed)?,
